@@ -5,6 +5,7 @@ package main
 // document with the term DAG and the explored paths.
 
 import (
+	"time"
 	"encoding/json"
 	"fmt"
 	"go/constant"
@@ -166,6 +167,9 @@ func runHarness(prog *ssa.Program, root *ssa.Package, modPkgs map[string]bool, r
 	if rc.MaxPaths == 0 {
 		rc.MaxPaths = 4000
 	}
+	if rc.MaxSecs == 0 {
+		rc.MaxSecs = 150
+	}
 	if rc.MaxSteps == 0 {
 		rc.MaxSteps = 5000000
 	}
@@ -269,6 +273,7 @@ func runHarness(prog *ssa.Program, root *ssa.Package, modPkgs map[string]bool, r
 		s0.mark = s0.seq
 		s0.postInit = true
 		x.pushFrame(s0, hf, args, nil)
+		x.deadline = time.Now().Add(time.Duration(rc.MaxSecs) * time.Second)
 		ends = append(ends, x.explore(s0)...)
 	}
 	sort.SliceStable(ends, func(i, j int) bool { return false })
